@@ -11,8 +11,10 @@ import (
 	"fmt"
 	"math"
 	"math/rand"
+	"reflect"
 	"sort"
 	"strings"
+	"sync/atomic"
 
 	"verif/vlib"
 )
@@ -481,4 +483,27 @@ func queryPoints(rng *rand.Rand, dim int, los, his []vec, n int, nudge bool, ext
 		res = append(res, p)
 	}
 	return res
+}
+
+// optimizeReordered counts JoinedSolid.Optimize() calls after which the caller's operand list was
+// no longer what it had been (checked inside the kits, reported by the boolean sections).
+var optimizeReordered, optimizeChecked atomic.Int64
+
+// sameOperand: identity of two operands held in interface values (pointers and slices by address
+// and length, other comparable values by ==; operands are never copied by the kits).
+func sameOperand(a, b interface{}) bool {
+	va, vb := reflect.ValueOf(a), reflect.ValueOf(b)
+	if va.Type() != vb.Type() {
+		return false
+	}
+	switch va.Kind() {
+	case reflect.Ptr, reflect.Map, reflect.Func, reflect.Chan, reflect.UnsafePointer:
+		return va.Pointer() == vb.Pointer()
+	case reflect.Slice:
+		return va.Pointer() == vb.Pointer() && va.Len() == vb.Len()
+	}
+	if va.Type().Comparable() {
+		return a == b
+	}
+	return true
 }
